@@ -489,7 +489,15 @@ pub struct ReplayFile {
 /// Give this process (and the children it spawns) a private network namespace with its own loopback, so that
 /// concurrently running worker processes can never receive each other's datagrams through recycled ephemeral
 /// ports. Returns false if the kernel refuses (the checks still run, sharing the host's loopback).
+pub static NET_ISOLATED: std::sync::atomic::AtomicBool = std::sync::atomic::AtomicBool::new(false);
+
 pub fn isolate_network() -> bool {
+    let ok = isolate_network_inner();
+    NET_ISOLATED.store(ok, std::sync::atomic::Ordering::SeqCst);
+    ok
+}
+
+fn isolate_network_inner() -> bool {
     #[repr(C)]
     struct IfReq {
         name: [libc::c_char; 16],
